@@ -14,6 +14,7 @@ import io
 import itertools
 import logging
 import math
+import os
 import random
 
 import numpy as np
@@ -22,6 +23,10 @@ from harness import tlc
 from harness.util import Hang, time_limit
 
 F_LS_REPLIM0 = "F25"      # line_search(rep_lim=0) returns the step it has just probed and found not below
+# Which variant of LineSearchOps!For the code is expected to follow (M: clauses only).  False = the code as it is
+# (break before `eta = eta / 2`); set to True if proposed_fixes/F25.diff is applied to /repo (VERIF_C19_F25_FIXED=1
+# does the same for trying the patch on a scratch copy: VERIF_REPO=<copy> VERIF_C19_F25_FIXED=1 ./check C19).
+LS_HALVE_BEFORE_BREAK = os.environ.get("VERIF_C19_F25_FIXED") == "1"
 
 MICRO = 1000000
 SUB = 1024                # line-search positions are logged in 1/1024 of a unit
@@ -179,7 +184,7 @@ def record_ls(sc):
             obj.events.append(dict(ev="ret", dir=1, res="raise", sgn=0, off=0, p=0, b=0, exc=type(ex).__name__))
     for e in obj.events:
         e.pop("exc", None)
-    return dict(kind=sc["kind"], K=K, replim=replim, ndir=ndir, lo=lo, below=sc["below"], events=obj.events)
+    return dict(kind=sc["kind"], K=K, replim=replim, hf=LS_HALVE_BEFORE_BREAK, ndir=ndir, lo=lo, below=sc["below"], events=obj.events)
 
 
 def pred_threshold(lo, hi, t):
@@ -247,7 +252,7 @@ def is_replim0_finding(sc, verdict):
 
 def check_ls(ctx, scs):
     traces = [record_ls(sc) for sc in scs]
-    verdicts = ctx.validate("LineSearch_Trace", traces, chunk=400, name="ls")
+    verdicts = ctx.validate("LineSearch_Trace", traces, chunk=max(100, -(-len(traces) // 8)), name="ls")
     for sc, tr, v in zip(scs, traces, verdicts):
         nprobe = sum(1 for e in tr["events"] if e["ev"] == "probe")
         ctx.case(("ls", sc["kind"], sc["K"], sc["replim"], tlc_digest(sc["below"]), sc.get("axis"), sc.get("sign")), nontrivial=nprobe >= 3)
@@ -461,7 +466,7 @@ def bb_scenarios(ctx):
 
 def check_bb(ctx, scs):
     traces = [record_bb(sc) for sc in scs]
-    verdicts = ctx.validate("BBox_Trace", traces, chunk=60, name="bb")
+    verdicts = ctx.validate("BBox_Trace", traces, chunk=max(20, -(-len(traces) // 8)), name="bb")
     for sc, tr, v in zip(scs, traces, verdicts):
         nin = sum(1 for e in tr["events"] if e["inside"])
         nout = sum(1 for e in tr["events"] if e["ev"] in ("pt", "bpt") and not e["inside"])
@@ -639,7 +644,7 @@ def rp_scenarios(ctx):
 
 def check_rp(ctx, scs):
     traces = [record_rp(sc) for sc in scs]
-    verdicts = ctx.validate("RomcPosterior_Trace", traces, chunk=25, name="rp")
+    verdicts = ctx.validate("RomcPosterior_Trace", traces, chunk=max(10, -(-len(traces) // 8)), name="rp")
     for sc, tr, v in zip(scs, traces, verdicts):
         npos = sum(1 for e in tr["events"] if (e["ev"] == "pdf" and e["val"][0] == 1) or (e["ev"] == "w" and e["w"][0] == 1))
         nzero = sum(1 for e in tr["events"] if (e["ev"] == "pdf" and e["val"][0] == 0) or (e["ev"] == "w" and e["w"][0] == 0))
@@ -651,3 +656,183 @@ def check_rp(ctx, scs):
         elif v["drift"]:
             ctx.drifted(v["drift"], dict(part="rp", **sc))
     return traces
+
+
+# =====================================================================================
+#  O1 configurations and the run
+# =====================================================================================
+LS_INV = ["PositiveResult", "BelowUpToResult", "NeverPassesAFailedProbe", "ResultProbedOrResolution", "Tight",
+          "AgreesWithOps", "BoundedWork"]
+LS_ACTS = ["ForHead", "WhileTest", "Body", "Back", "Fallback"]
+BB_INV = ["SampleInside", "ForwardInverseAgree", "Density", "VolumePositive", "IntegratesToOne", "InverseIsInverse"]
+BB_ACTS = ["Construct", "SampleStep", "QueryStep"]
+RP_INV = ["DensityCount", "WeightFormula", "PositiveWeightCounted", "WeightSane"]
+RP_ACTS = ["EvalPdfStep", "DrawWeightStep"]
+
+
+def ls_cfg(ks, rls, back, invs, live=True, hf=None):
+    hf = LS_HALVE_BEFORE_BREAK if hf is None else hf
+    return "SPECIFICATION Spec\nCONSTANTS\n  Ks = {%s}\n  RepLims = {%s}\n  StepBack = %s\n  HalveFirst = %s\n%s%sCHECK_DEADLOCK FALSE\n" % (
+        ",".join(map(str, ks)), ",".join(map(str, rls)), "TRUE" if back else "FALSE", "TRUE" if hf else "FALSE",
+        "".join("INVARIANT %s\n" % i for i in invs), "PROPERTY Terminates\n" if live else "")
+
+
+def bb_cfg(D, centres, cmax, pairs, qr, use_inverse, invs):
+    return ("SPECIFICATION Spec\nCONSTANTS\n  D = %d\n  Centres <- %s\n  CMax = %d\n  LimPairs <- %s\n  LMax = 2\n  Eps = 2\n  QR = %d\n"
+            "  UseInverse = %s\n%sCHECK_DEADLOCK FALSE\n"
+            % (D, centres, cmax, pairs, qr, "TRUE" if use_inverse else "FALSE", "".join("INVARIANT %s\n" % i for i in invs)))
+
+
+def rp_cfg(N, D, boxes, pr, cutoffs, priors, leq, lt, invs):
+    return ("SPECIFICATION Spec\nCONSTANTS\n  N = %d\n  D = %d\n  Boxes <- %s\n  LMax = 2\n  Eps = 2\n  PR = %d\n  DMax = 2\n  Cutoffs = {%s}\n"
+            "  Priors <- %s\n  DensityLeq = %s\n  WeightLt = %s\n%sCHECK_DEADLOCK FALSE\n"
+            % (N, D, boxes, pr, ",".join(map(str, cutoffs)), priors, "TRUE" if leq else "FALSE", "TRUE" if lt else "FALSE",
+               "".join("INVARIANT %s\n" % i for i in invs)))
+
+
+def design_runs(ctx):
+    """O1.  The runs are independent; they are executed a few at a time with at most 8 TLC workers in total."""
+    import concurrent.futures
+    ks, rls = (range(0, 5), range(1, 6)) if ctx.quick else (range(0, 7), range(1, 9))
+    small, big = [], []
+
+    def add(lst, module, name, cfg_text, **kw):
+        lst.append((module, name, dict(cfg_text=cfg_text, **kw)))
+    if LS_HALVE_BEFORE_BREAK:
+        # the repaired code: every theorem for every rep_lim >= 0
+        add(small, "LineSearch", "MC_LineSearch_main", ls_cfg(ks, [0] + list(rls), True, LS_INV), expect_actions=LS_ACTS)
+    else:
+        # (c) all predicates, rep_lim >= 1: every theorem, incl. termination
+        add(small, "LineSearch", "MC_LineSearch_main", ls_cfg(ks, rls, True, LS_INV), expect_actions=LS_ACTS)
+        # rep_lim = 0: everything but BelowUpToResult/ResultProbedOrResolution holds ...
+        add(small, "LineSearch", "MC_LineSearch_rep0",
+            ls_cfg(ks, [0], True, [i for i in LS_INV if i not in ("BelowUpToResult", "ResultProbedOrResolution")]), expect_actions=LS_ACTS)
+        # ... and BelowUpToResult is refuted: the design-level form of finding F25 (a genuine defect of the code, not a control)
+        add(small, "LineSearch", "MC_LineSearch_rep0_finding", ls_cfg(ks, [0], True, ["BelowUpToResult"], live=False), expect_ok=False,
+            label="finding-%s:rep_lim=0-refutes-BelowUpToResult" % F_LS_REPLIM0)
+    # the repair proposed for F25 (eta halved before the break): every theorem for rep_lim >= 0
+    add(small, "LineSearch", "MC_LineSearch_proposed_fix", ls_cfg(ks, [0] + list(rls), True, LS_INV, hf=True), expect_actions=LS_ACTS,
+        label="proposed-fix-%s:all-theorems-for-rep_lim>=0" % F_LS_REPLIM0)
+    # negative control: without the step back the returned offset is a failed probe
+    add(small, "LineSearch", "MC_LineSearch_noback", ls_cfg(ks, rls, False, ["PositiveResult", "BelowUpToResult"], live=False), expect_ok=False)
+    # (a, b) boxes; negative control: contains() applies `rotation` instead of `rotation_inv`
+    add(small, "MC_BBox", "MC_BBox_d1", bb_cfg(1, "AllCentres", 2, "SixPairs", 5, True, BB_INV), expect_actions=BB_ACTS)
+    add(small, "MC_BBox", "MC_BBox_d2", bb_cfg(2, "TwoCentres", 1, "SixPairs", 5, True, BB_INV), expect_actions=BB_ACTS)
+    add(small, "MC_BBox", "MC_BBox_d2_rotation_for_inverse", bb_cfg(2, "TwoCentres", 1, "SixPairs", 5, False, ["SampleInside"]), expect_ok=False)
+    # (d, e) posterior; negative controls: `<` for the density, `<=` for the weights, both swapped
+    add(small, "MC_RomcPosterior", "MC_RomcPosterior_n2", rp_cfg(2, 1, "Boxes1Small", 3, [0, 1, 2], "ThreePriors", True, True, RP_INV),
+        expect_actions=RP_ACTS)
+    add(small, "MC_RomcPosterior", "MC_RomcPosterior_swapped_comparisons",
+        rp_cfg(2, 1, "Boxes1Small", 3, [1], "ThreePriors", False, False, ["PositiveWeightCounted"]), expect_ok=False)
+    add(small, "MC_RomcPosterior", "MC_RomcPosterior_density_lt", rp_cfg(2, 1, "Boxes1Small", 3, [1], "ThreePriors", False, True, ["DensityCount"]),
+        expect_ok=False)
+    add(small, "MC_RomcPosterior", "MC_RomcPosterior_weight_le", rp_cfg(2, 1, "Boxes1Small", 3, [1], "ThreePriors", True, False, ["WeightFormula"]),
+        expect_ok=False)
+    if not ctx.quick:
+        add(big, "MC_BBox", "MC_BBox_d2_all", bb_cfg(2, "AllCentres", 1, "SixPairs", 5, True, BB_INV), expect_actions=BB_ACTS)
+        add(big, "MC_BBox", "MC_BBox_d3", bb_cfg(3, "OneCentre", 2, "TwoPairs", 4, True, BB_INV), expect_actions=BB_ACTS)
+        add(big, "MC_BBox", "MC_BBox_d3_rotation_for_inverse", bb_cfg(3, "OneCentre", 2, "TwoPairs", 4, False, ["SampleInside"]), expect_ok=False)
+        add(big, "MC_RomcPosterior", "MC_RomcPosterior_n2_big", rp_cfg(2, 1, "Boxes1", 4, [0, 1, 2], "SomePriors", True, True, RP_INV),
+            expect_actions=RP_ACTS)
+        add(big, "MC_RomcPosterior", "MC_RomcPosterior_n3", rp_cfg(3, 1, "Boxes1Small", 2, [1, 2], "ThreePriors", True, True, RP_INV),
+            expect_actions=RP_ACTS)
+        add(big, "MC_RomcPosterior", "MC_RomcPosterior_n2_d2", rp_cfg(2, 2, "Boxes2", 3, [1, 2], "ThreePriors", True, True, RP_INV),
+            expect_actions=RP_ACTS)
+    results = {}
+    for lst, par, w in ((small, 4, 2), (big, 2, 4)):
+        if not lst:
+            continue
+        with concurrent.futures.ThreadPoolExecutor(max_workers=par) as ex:
+            futs = {ex.submit(ctx.tlc, m, n, workers=w, timeout=2400, **kw): n for (m, n, kw) in lst}
+            for f in concurrent.futures.as_completed(futs):
+                results[futs[f]] = f.result()          # MachineryFailure propagates
+    ctx.tlc_runs.sort(key=lambda r: str(r.get("label")))
+    ctx.negative_controls.sort(key=lambda r: str(r.get("run")))
+    if "MC_LineSearch_rep0_finding" in results:
+        ctx.notes.append("LineSearch.tla with RepLims={0}: TLC refutes %s (finding %s) - the code returns the step it has just probed and found "
+                         "not below; for RepLims>=1 the theorem holds for all predicates" % (results["MC_LineSearch_rep0_finding"].violated, F_LS_REPLIM0))
+
+
+def emitted_ls_scenarios(ctx):
+    """spec -> code: every terminal state of LineSearch.tla becomes a call of the real line_search."""
+    ks, rls = (range(0, 4), range(0, 4)) if ctx.quick else (range(0, 5), range(0, 6))
+    r = ctx.tlc("Gen_LineSearch", "Gen_LineSearch_emit", cfg_text=ls_cfg(ks, rls, True, ["Emit"], live=False), workers=1, timeout=900,
+                label="emit-behaviours")
+    rnd = random.Random(ctx.seed + 1234)
+    out = []
+    for v in r.printed:
+        if not (isinstance(v, list) and v and v[0] == "BEH"):
+            continue
+        _, K, replim, passed, failed, _off = v
+        passed, failed = set(passed[1]), set(failed[1])
+        lo, hi = ls_table_range(K, replim)
+        for fill in (0, 1, None):
+            tab = []
+            for p in range(lo, hi + 1):
+                tab.append(1 if p in passed else 0 if p in failed else (rnd.randint(0, 1) if fill is None else fill))
+            out.append(dict(kind="ls", K=K, replim=replim, eta=rnd.choice([0.5, 1.0, 2.0]), lo=lo, below=[tab], th_star=[rnd.randint(-8, 8) / 4.0],
+                            axis=0, sign=rnd.choice([1, -1]), emitted=True))
+    if len(out) < 100:
+        raise tlc.MachineryFailure("behaviour emission produced only %d line-search cases" % len(out))
+    return out
+
+
+def check_scenarios(ctx, scs):
+    parts = dict(ls=[], bb=[], rp=[])
+    for sc in scs:
+        parts[sc["part"]].append({k: v for k, v in sc.items() if k != "part"})
+    tr = []
+    if parts["ls"]:
+        tr += check_ls(ctx, parts["ls"])
+    if parts["bb"]:
+        tr += check_bb(ctx, parts["bb"])
+    if parts["rp"]:
+        tr += check_rp(ctx, parts["rp"])
+    return tr
+
+
+def run(ctx):
+    ctx.rule = ("(c) every terminal behaviour of LineSearch.tla (K<=3/4, rep_lim<=3/5) replayed into the real line_search with three fillings of the "
+                "unprobed positions; every threshold predicate and random non-monotone predicates for each (K, rep_lim), three step sizes, axes and signs; "
+                "RegionConstructor.build with 2*D independent predicates.  (a,b) real NDimBoundingBox for EVERY signed-permutation rotation in 1-3 D x "
+                "dyadic/non-dyadic centres x limit pairs from a pool with degenerate, narrow, threshold, one-sided and wide entries: contains/pdf at lattice "
+                "points 0.00025 or 1/64 inside / on / outside every face, sample(n, seed) points fed back; random orthonormal rotations in 1-5 D with "
+                "body-frame lattice points and samples.  (d,e) real RomcPosterior over 1-4 such regions, objectives with values eps-1, eps, eps+1, "
+                "stub prior with dyadic values and bounded support, with and without surrogate flag, single/batched density, sample() and the "
+                "worker function.  Non-trivial = a search with >= 3 probes / a box with points inside and outside / a posterior with zero and "
+                "non-zero values.")
+    ctx.clauses_decided = [
+        "a: drawn points are contained (exact rotations: also in the region recomputed by TLC; orthonormal: contains() of the draw)",
+        "b: density 1/volume inside, 0 outside; volume of the widened limits (exact rotations; orthonormal rotations through body-frame points)",
+        "c: line search returns a positive offset with all probed steps up to it below (given the start is below)",
+        "d: unnormalised density = prior x count with <=, region containment when surrogates are used",
+        "e: weight = [dist < eps] x prior / region density",
+    ]
+    ctx.clauses_not_decided = [
+        "b on the faces themselves and for points within 1e-6 of a face (measure zero / float rounding): either answer accepted",
+        "widening of a raw width that equals the threshold 0.001 exactly: either outcome accepted, then used consistently",
+        "b for inexact rotations uses the harness's float forward map x = c + R u as the oracle (trusted base)",
+        "RomcPosterior.pdf (normalised, grid partition) and the parallelize=True process pool are not part of the statement",
+    ]
+    ctx.trusted_base += ["numpy matmul for the harness's forward/inverse maps with random orthonormal rotations",
+                         "decimal projection of floats to 7 significant digits (relative tolerance 2e-6 in TLC)"]
+    ctx.assumptions += ["objective callables are functions of the point (same value when probed twice)",
+                        "the start of a line search is below the threshold (ROMC only searches from accepted optima); otherwise only positivity is claimed"]
+    design_runs(ctx)
+    ls_scs, n_ls = ls_scenarios(ctx)
+    ls_scs = emitted_ls_scenarios(ctx) + ls_scs
+    bb_scs, n_exact = bb_scenarios(ctx)
+    rp_scs = rp_scenarios(ctx)
+    tl = check_ls(ctx, ls_scs)
+    tb = check_bb(ctx, bb_scs)
+    tp = check_rp(ctx, rp_scs)
+    ctx.exhaustive = True
+    ctx.notes.append("%d line-search traces (%d emitted by TLC), %d boxes (%d with exact rotations = every signed permutation in 1-3 D), %d posteriors"
+                     % (len(ls_scs), sum(1 for s in ls_scs if s.get("emitted")), len(bb_scs), n_exact, len(rp_scs)))
+    ctx.sample(dict(scenario={k: v for k, v in ls_scs[0].items()}, trace=tl[0]["events"][:10]))
+    ctx.sample(dict(scenario={k: (v if k != "upts" else v[:4]) for k, v in bb_scs[len(bb_scs) // 3].items()}, trace=tb[len(bb_scs) // 3]["events"][:6]))
+    ctx.sample(dict(scenario={k: (v if k != "pts" else v[:4]) for k, v in rp_scs[0].items()}, trace=tp[0]["events"][:4] + tp[0]["events"][-3:]))
+
+
+def replay(ctx, scenario):
+    check_scenarios(ctx, [scenario])
